@@ -71,8 +71,14 @@ def finish(c, g):
                 c.op(k, vfx.ps(t, n))
 
 
+def corpus_cases():
+    """every operation on every kind of target (wrong types, the root, below files) and handles that outlive their file"""
+    kinds = ["mem", "phys", "alt_mem", "ovl_mm", "ovl_pp", "ovl_sub"]
+    return hist.matrix_cases("c13", kinds, root_removal=True) + hist.stale_handle_cases("c13", kinds)
+
+
 P = histprop.HistProp(
-    "C13", CONFIGS, typed=False, project=project, quick_cases=8, thorough_cases=100, nops=(8, 16), finish=finish,
+    "C13", CONFIGS, typed=False, corpus_cases=corpus_cases, project=project, quick_cases=8, thorough_cases=100, nops=(8, 16), finish=finish,
     builds=(False, True), hostile=0.3, allow_big=False,
     rule=("untyped histories on all 15 configurations followed by calls of every kind on the root and on odd join arguments "
           "('', '/', '.', '..', 'a/', '//', '...', multi-byte, 300 characters), by reads/seeks/writes on handles whose file "
